@@ -13,8 +13,11 @@ writes the direct table, whether it dispatches at call time, and what its output
 outputs of the components.
 """
 
+import collections
+import collections.abc
 import enum
 import functools
+import json
 import linecache
 import os
 import sys
@@ -33,6 +36,8 @@ if not os.path.abspath(cattrs.__file__).startswith(os.path.abspath(SRC)):
     raise RuntimeError(f"cattrs imported from {cattrs.__file__}, expected under {SRC}")
 
 from harness import lean  # noqa: E402
+from harness import dispatch_shapes as shapes  # noqa: E402
+from harness.dispatch_shapes import NOCONV  # noqa: E402
 
 UN, ST = "un", "st"
 DIRS = (UN, ST)
@@ -137,6 +142,9 @@ class Universe:
         add("list[list[B]]", list[list[DspB]], "list", ["list[B]"], [[b]], [[pb]], [[(5, 6)]])
         add("dict[str,B]", dict[str, DspB], "dict", ["str", "B"], {"k": b}, {"k": pb}, {"k": (5, 6)})
         add("tuple[A,P]", tuple[DspA, DspP], "tuple", ["A", "P"], (a, DspP()), [pa, {}], [(5,), {}])
+        # a homogeneous tuple: shares its origin (`tuple`) with the heterogeneous one above, but not its container default
+        # (Converter: list, through `gen_unstructure_iterable`; BaseConverter: the run-time class of the value)
+        add("tuple[A,...]", tuple[DspA, ...], "htuple", ["A"], (a,), [pa], [(5,)])
         # `Annotated[T, ...]` spellings (Converter only: its `is_annotated` factories, registered last, unwrap them and
         # ask the converter THEY ARE BOUND TO for the hook of T), top level and as field types
         add("An[A]", Annotated[DspA, "m"], "annotated", ["A"], a, pa, (5,))
@@ -237,8 +245,68 @@ class ConvCfg:
         return (f"{self.klass}{'/tuple' if self.tuple_strat else ''}{'/fbU' if self.fb_un else ''}"
                 f"{'/fbS' if self.fb_st else ''}{'' if self.detailed else '/fast'}")
 
+    def opts(self):
+        return self.name() + ("" if not self.extra else " " + json.dumps(self.extra, sort_keys=True))
+
     def fb(self, d):
         return self.fb_un if d == UN else self.fb_st
+
+
+# Construction / copy options whose values are objects are written by NAME in the (JSON) case and decoded here.  The keys
+# used (`set`, `frozenset`, `float`) are deliberately outside the universe: universe probes (and the model, which treats
+# options as dispatch-neutral) are unaffected; the option-sensitive probes of C18 observe them.
+_COLL = {"set": set, "frozenset": frozenset, "list": list, "tuple": tuple, "sorted": sorted,
+         "AbstractSet": collections.abc.Set, "MutableSet": collections.abc.MutableSet}
+_DICTS = {"dict": dict, "OrderedDict": collections.OrderedDict}
+_TYS = {"float": float, "bytes": bytes}
+
+
+def decode_options(kw):
+    """{option name: JSON value} -> keyword arguments of Converter(...) / .copy(...)"""
+    from cattrs.gen import override
+    out = {}
+    for k, v in kw.items():
+        if k == "unstruct_strat":
+            out[k] = UnstructureStrategy(v)
+        elif k == "unstruct_collection_overrides":
+            out[k] = {_COLL[a]: _COLL[b] for a, b in v.items()}
+        elif k == "type_overrides":
+            out[k] = {_TYS[a]: override(rename=b) for a, b in v.items()}
+        elif k == "dict_factory":
+            out[k] = _DICTS[v]
+        else:
+            out[k] = v
+    return out
+
+
+# attributes of a converter that hold construction OPTIONS (C08: "behaviour is a function of construction options and
+# registration history alone" -- no use of the converter may write them; C18: carried / replaced by copy)
+OPTION_ATTRS = ("detailed_validation", "forbid_extra_keys", "omit_if_default", "type_overrides",
+                "_unstruct_collection_overrides", "_prefer_attrib_converters", "_dict_factory", "_unstructure_attrs",
+                "_structure_attrs")
+
+
+def options_snapshot(conv):
+    """{attribute: value}; dict-valued options are copied (keys and values compared by ==, callables by identity)"""
+    out = {}
+    for a in OPTION_ATTRS:
+        if hasattr(conv, a):
+            v = getattr(conv, a)
+            if isinstance(v, types.MethodType):   # `_unstructure_attrs` / `_structure_attrs`: which method, not whose
+                v = ("method", v.__func__.__name__)
+            out[a] = dict(v) if isinstance(v, dict) else v
+    try:
+        out["unstruct_strat"] = conv.unstruct_strat
+    except Exception:  # noqa: BLE001
+        pass
+    return out
+
+
+def options_diff(before, conv):
+    """attributes whose value after use differs from the snapshot taken at construction"""
+    after = options_snapshot(conv)
+    return [f"{a}: {before.get(a)!r} -> {after.get(a)!r}" for a in sorted(set(before) | set(after))
+            if before.get(a) != after.get(a)]
 
 
 class Beh:
@@ -270,7 +338,7 @@ def comps_of(cc: ConvCfg, d, key):
         return [p for p in t.parts if U.types[p].shape == "attrs"]
     if sh == "optional":
         return _rt(t.parts) if base_un else list(t.parts)
-    if sh in ("list", "dict", "tuple"):
+    if sh in ("list", "dict", "tuple", "htuple"):
         return _rt(t.parts) if base_un else list(t.parts)
     return []
 
@@ -295,7 +363,7 @@ def split(cc, d, key, v):
     if sh == "union":
         cs = comps_of(cc, d, key)
         return ([v] + [SKIP] * (len(cs) - 1)) if cs else []
-    if sh == "list":
+    if sh in ("list", "htuple"):
         return [v[0]]
     if sh == "dict":
         (k, x), = v.items()
@@ -356,6 +424,10 @@ def builtin_behaviour(cc: ConvCfg, d, key):
             if gen:
                 return Beh("gen_unstructure_hetero_tuple", "factory", "cached", direct=True, comps=cs, out=lambda ch, s: ("tuple", ch))
             return None
+        if sh == "htuple":
+            if gen:  # `is_sequence` -> gen_unstructure_iterable: `unstruct_collection_overrides.get(tuple, list)`
+                return Beh("gen_unstructure_iterable", "factory", "uncached", direct=True, comps=cs, out=lambda ch, s: ("list", ch))
+            return Beh("_unstructure_seq", late=True, comps=cs, out=lambda ch, s: ("tuple", ch))  # `seq.__class__(...)`
         return None
     # structure
     if sh == "attrs":
@@ -380,7 +452,7 @@ def builtin_behaviour(cc: ConvCfg, d, key):
         if gen:
             return Beh("gen_structure_mapping", "factory", "uncached", direct=True, comps=cs, out=_out_dict1)
         return Beh("_structure_dict", late=True, comps=cs, out=_out_dict1)
-    if sh == "tuple":
+    if sh in ("tuple", "htuple"):
         return Beh("_structure_tuple", late=True, comps=cs, out=lambda ch, s: ("tuple", ch))
     return None
 
@@ -620,6 +692,25 @@ def _expect(ctx, h, key, sample):
 # --------------------------------------------------------------------------------------------------
 # the implementation side
 # --------------------------------------------------------------------------------------------------
+class PredicateConfused(Exception):
+    """a user-defined exception class"""
+
+
+# What a predicate written for one family of types raises on an unrelated type: `issubclass(t, X)` on a non-class
+# (TypeError), `t.__origin__` (AttributeError), `t.__args__[0]` (IndexError), a table lookup (KeyError), own validation
+# (ValueError, AssertionError, a user-defined class), ...  "can handle could raise an exception here ... it's easier to just
+# ignore that case" (dispatch.py): ANY `Exception` means "does not accept".  RecursionError is deliberately not here:
+# the dispatcher lets it through (repair of F40 -- it is not a property of the type).
+PRED_EXCEPTIONS = (TypeError, AttributeError, IndexError, KeyError, ValueError, LookupError, AssertionError,
+                   ZeroDivisionError, RuntimeError, NotImplementedError, StopIteration, OSError, UnicodeError,
+                   ArithmeticError, NameError, BufferError, EOFError, ImportError, PredicateConfused, Exception)
+
+
+def pred_exception(pid, key):
+    """the exception class predicate `pid` raises on type `key` (a function of the case, so replays repeat it)"""
+    return PRED_EXCEPTIONS[(pid * 7 + key * 3) % len(PRED_EXCEPTIONS)]
+
+
 class Impl:
     """Real converters executing a history.  `current` is the converter an operation is being performed on
     (extended factories record whether the converter they receive is that one)."""
@@ -631,6 +722,8 @@ class Impl:
         self.current = None
         self.pred_fns = {}
         self.reg_errors = []  # registrations / copies that raised (never expected)
+        self.raised = collections.Counter()  # exception classes raised by predicates
+        self.opts0 = []     # options_snapshot of each converter when it entered the store
 
     # ---- construction
     def fb_factory(self, d, fid):
@@ -646,7 +739,7 @@ class Impl:
             kw["unstructure_fallback_factory"] = self.fb_factory(UN, cc.fb_un)
         if cc.fb_st:
             kw["structure_fallback_factory"] = self.fb_factory(ST, cc.fb_st)
-        kw.update(cc.extra)
+        kw.update(decode_options(cc.extra))
         if cc.klass == "Converter":
             c = Converter(**kw)
         elif cc.klass == "BaseConverter":
@@ -656,14 +749,18 @@ class Impl:
             c = make_converter(**kw)
         else:
             raise ValueError(cc.klass)
-        self.convs.append(c)
-        self.cfgs.append(cc)
-        return len(self.convs) - 1
+        return self.adopt(c, cc)
 
     def adopt(self, conv, cc):
         self.convs.append(conv)
         self.cfgs.append(cc)
+        self.opts0.append(options_snapshot(conv))
         return len(self.convs) - 1
+
+    def options_written(self):
+        """["c<i>: attr: before -> after"] for every converter whose option attributes changed since it was created
+        (nothing the harness does -- registrations, calls, get_*_hook, copying it -- may write them)"""
+        return [f"c{i}: {d}" for i, c in enumerate(self.convs) for d in options_diff(self.opts0[i], c)]
 
     # ---- user callables
     def pred_fn(self, pid):
@@ -673,7 +770,9 @@ class Impl:
             def pred(t, acc=acc, rais=rais):
                 k = U.key(t)
                 if k in rais:
-                    raise TypeError("predicate does not like this type")
+                    exc = pred_exception(pid, k)
+                    self.raised[exc.__name__] += 1
+                    raise exc("predicate does not like this type")
                 return k in acc
             self.pred_fns[pid] = pred
         return self.pred_fns[pid]
@@ -686,7 +785,13 @@ class Impl:
     def call_hook(self, d, hook, v, tobj):
         return hook(v) if d == UN else hook(v, tobj)
 
-    def factory(self, d, tag, extended):
+    def factory(self, d, tag, extended, shape=None):
+        """A hook factory with the signature `shape` (harness/dispatch_shapes.py).  Its one body `core` is told what the
+        factory was actually CALLED with: nothing in the converter position (`NOCONV`) -> it behaves as a plain factory;
+        something there -> it records whether that is the converter being operated on and looks the component hooks up
+        through it (as a converter-taking factory does).  The hook it makes shows all of that in its result:
+        `("F", tag, type key, received?, [results of the component hooks])`, received? = False | True | "other" (an object
+        that is not the current converter) | "extra" (arguments the documented call does not pass)."""
         impl = self
 
         def made(key, wc, cc, subs):
@@ -700,22 +805,23 @@ class Impl:
                 return Tagged(("F", tag, key, wc, ch))
             return (lambda v: run(v)) if d == UN else (lambda v, _: run(v))
 
-        if not extended:
-            def plain_factory(t):
-                return made(U.key(t), False, None, None)
-            return plain_factory
-
-        def extended_factory(t, converter):
+        def core(t, converter=NOCONV, extra=False):
             key = U.key(t)
+            if converter is NOCONV:
+                return made(key, "extra" if extra else False, None, None)
             cur = impl.current
             cc = impl.cfgs[cur] if cur is not None else None
             ok = cur is not None and converter is impl.convs[cur]
-            if cc is None or key is None or excluded(cc, d, key):
-                return made(key, ok, None, None)
+            wc = "extra" if extra else (True if ok else ("other" if not isinstance(converter, BaseConverter) else False))
+            if cc is None or key is None or excluded(cc, d, key) or not isinstance(converter, BaseConverter):
+                return made(key, wc, None, None)
             get = converter.get_unstructure_hook if d == UN else converter.get_structure_hook
             subs = [get(U.types[c].obj) for c in comps_of(cc, d, key)]
-            return made(key, ok, cc, subs)
-        return extended_factory
+            return made(key, wc, cc, subs)
+
+        if shape is None:
+            shape = "t,c" if extended else "t"
+        return shapes.SHAPES[shape].build(core)
 
     # ---- operations
     def do(self, op):
@@ -725,9 +831,7 @@ class Impl:
             src = self.convs[op["src"]]
             self.current = op["src"]
             cc = ConvCfg.from_json(op["cfg"])
-            kw = dict(op.get("kwargs", {}))
-            if "unstruct_strat" in kw:
-                kw["unstruct_strat"] = UnstructureStrategy(kw["unstruct_strat"])
+            kw = decode_options(op.get("kwargs", {}))
             how = op.get("how", "copy")
             if how == "deepcopy":
                 import copy as _copy
@@ -777,7 +881,7 @@ class Impl:
             return None
         if kind == "factory":
             reg = c.register_unstructure_hook_factory if d == UN else c.register_structure_hook_factory
-            fac = self.factory(d, op["tag"], op["extended"])
+            fac = self.factory(d, op["tag"], op["extended"], op.get("shape"))
             if op.get("form") == "deco":
                 reg(self.pred_fn(op["pred"]))(fac)
             else:
@@ -825,6 +929,36 @@ def entry_sx(pid, kind, tag, sub="none"):
     return f"((tbl {pid}) {kind} {tag} 0 {sub} 0)"
 
 
+SHAPE_INFO = {}
+
+
+def shape_info(drv):
+    """{shape name: {"kind": "extended"|"factory", "asks", "regular", "doc_binds", "impl_binds"}} from the model
+    (`SIGKIND`, Dispatch/Sig.lean) for the `inspect.signature` of every shape; asked once per process.  The documented
+    rule is cross-checked three ways: declared per shape == read off the signature in Python (at import of
+    dispatch_shapes) == the model's `Sig.asksConverter`."""
+    if SHAPE_INFO:
+        return SHAPE_INFO
+    for name, sh in shapes.SHAPES.items():
+        fn = sh.build(lambda t, c=NOCONV, extra=False: None)
+        r = drv.ask("SIGKIND " + shapes.sig_sx(fn))
+        if not r.startswith("(ok"):
+            raise lean.InfraError(f"model driver (SIGKIND {name}): {r[:200]}")
+        _, kind, asks, regular, docb, implb = parse_sx(r)[0]
+        info = {"kind": kind, "asks": asks == "1", "regular": regular == "1", "doc_binds": docb == "1", "impl_binds": implb == "1"}
+        if info["asks"] != sh.asks or info["regular"] == sh.f61 or not info["doc_binds"]:
+            raise lean.InfraError(f"harness and model disagree on the documented rule for factory shape {name}: {info}")
+        SHAPE_INFO[name] = info
+    return SHAPE_INFO
+
+
+def factory_kind(op):
+    """the `Kind` under which the model files the factory of registration `op`"""
+    if op.get("shape") is not None:
+        return SHAPE_INFO[op["shape"]]["kind"]
+    return "extended" if op["extended"] else "factory"
+
+
 def model_ops(history, d, cfgs0):
     """Translate the ops of direction `d` into `sop`s; returns (sops, index list of ops that produce a reply we compare)."""
     sops = []
@@ -844,7 +978,8 @@ def model_ops(history, d, cfgs0):
         elif k == "func":
             sops.append(f"(on {i} (regpred {entry_sx(op['pred'], 'plain', op['tag'])}))")
         elif k == "factory":
-            sops.append(f"(on {i} (regpred {entry_sx(op['pred'], 'extended' if op['extended'] else 'factory', op['tag'], 'cached' if op['extended'] else 'none')}))")
+            kind = factory_kind(op)  # a factory that is handed the converter looks the component hooks up through it
+            sops.append(f"(on {i} (regpred {entry_sx(op['pred'], kind, op['tag'], 'cached' if kind == 'extended' else 'none')}))")
         elif k == "get":
             if op.get("apply", True):
                 # get + apply = dispatch, then the call of the returned hook: in the model `call` after an
@@ -862,6 +997,7 @@ def model_ops(history, d, cfgs0):
 
 def run_model(drv, history, d, cfgs0, preds):
     """Run the direction-`d` part of `history` on the model.  Returns {op index: hook term}."""
+    shape_info(drv)
     ctx0 = ModelCtx(cfgs0[0], d, preds)
     # all converters of one history share the facts that depend on (class, strategy) only through comps/late;
     # histories are generated so that every converter of a history has the same `gen()` and tuple_strat
@@ -888,6 +1024,7 @@ def run_model(drv, history, d, cfgs0, preds):
 
 def run_spec(drv, history, d, cc, preds, keys):
     """`spec F cfg h t` (the theorem's right-hand side) for a single-converter history."""
+    shape_info(drv)
     ctx = ModelCtx(cc, d, preds)
     sops, _ = model_ops(history, d, [cc])
     ops = " ".join(s[len("(on 0 "):-1] for s in sops)
@@ -982,7 +1119,17 @@ def gen_preds(rng, n=4):
     return preds
 
 
-def gen_reg(rng, conv, d, preds, tagger, prev=None):
+def gen_shape(rng, extended, f61=0.0):
+    """signature shape of a generated factory: the two canonical spellings half of the time, any other shape of the
+    same class otherwise; with probability `f61` (C07 only) one of the recorded-finding shapes for a plain factory"""
+    if not extended and f61 and rng.random() < f61:
+        return rng.choice(shapes.F61)
+    if rng.random() < 0.4:
+        return "t,c" if extended else "t"
+    return rng.choice(shapes.EXTENDED if extended else shapes.PLAIN)
+
+
+def gen_reg(rng, conv, d, preds, tagger, prev=None, f61=0.0):
     """a registration op; `prev` = the ops generated so far: with some probability an earlier registration target
     (same converter and direction; unions and NewTypes preferred) is registered AGAIN with a new hook"""
     if prev and rng.random() < 0.22:
@@ -1004,8 +1151,9 @@ def gen_reg(rng, conv, d, preds, tagger, prev=None):
     pid = rng.choice(sorted(preds))
     if r < 0.65:
         return {"op": "func", "conv": conv, "dir": d, "pred": pid, "tag": tagger()}
-    return {"op": "factory", "conv": conv, "dir": d, "pred": pid, "tag": tagger(), "extended": rng.random() < 0.5,
-            "form": rng.choice(["call", "deco"])}
+    ext = rng.random() < 0.5
+    return {"op": "factory", "conv": conv, "dir": d, "pred": pid, "tag": tagger(), "extended": ext,
+            "form": rng.choice(["call", "deco"]), "shape": gen_shape(rng, ext, f61)}
 
 
 def gen_warm(rng, conv, d, cc):
@@ -1037,7 +1185,8 @@ def describe(op):
     if k == "func":
         return f"c{op['conv']}.{op['dir']}.func(p{op['pred']})#{op['tag']}"
     if k == "factory":
-        return f"c{op['conv']}.{op['dir']}.{'ext' if op['extended'] else ''}factory[{op.get('form','call')}](p{op['pred']})#{op['tag']}"
+        sh = f"<def({op['shape']})>" if op.get("shape") else ""
+        return f"c{op['conv']}.{op['dir']}.{'ext' if op['extended'] else ''}factory[{op.get('form','call')}]{sh}(p{op['pred']})#{op['tag']}"
     if k == "get":
         return f"c{op['conv']}.{op['dir']}.get({tn},cached={op.get('cached',True)},apply={op.get('apply',True)})"
     return f"c{op['conv']}.{op['dir']}.call({tn})"
